@@ -27,6 +27,8 @@ structure Ops (α : Type) where
   mul : α → α → α
   add : α → α → α
   sub : α → α → α
+  /-- `Square`: a separate operation, as in the Go code (the generated `sm2Square` is not `sm2Mul x x`) -/
+  square : α → α
   zero : α
 
 def step {α : Type} (ops : Ops α) (env : Env α) (i : Instr) : Env α :=
@@ -36,7 +38,7 @@ def step {α : Type} (ops : Ops α) (env : Env α) (i : Instr) : Env α :=
     | .mul => ops.mul x y
     | .add => ops.add x y
     | .sub => ops.sub x y
-    | .square => ops.mul x x
+    | .square => ops.square x
   (i.dst, v) :: env
 
 def eval {α : Type} (ops : Ops α) (prog : List Instr) (env : Env α) : Env α :=
